@@ -21,7 +21,7 @@
    premature free: none of these exist in the model; only the schedule runs on the real
    implementation can show them. *)
 Require Import ZArith List Bool.
-Require Import AV.Store.Gc AV.Store.GcFacts AV.GcSched.Model AV.GcSched.Facts.
+Require Import AV.Store.Gc AV.Store.GcFacts AV.GcSched.Model AV.GcSched.Facts AV.GcSched.Junk.
 Import ListNotations.
 Local Open Scope Z_scope.
 
@@ -96,6 +96,23 @@ Theorem no_dangling : forall (prog : list instr) (sched : nat -> bool),
 Proof. exact AV.Store.GcFacts.no_dangling. Qed.
 Print Assumptions no_dangling.
 
+(* The interpreter's pre-collection stack cleaning (fint.c:fintFreeJunk zeroes the stack, then stoGc()):
+   zeroing the variable slots above [live] and collecting, at a point where those slots are dead for
+   the rest of the program [p2] (along its execution no slot >= live is read before p2 has written it),
+   is not observable - whatever the schedules before ([s1]) and after ([s2]). *)
+Theorem fint_free_junk_safe : forall (p1 p2 : list instr) (live : nat) (s1 s2 : nat -> bool) (k2 : nat),
+    safe_from live [] p2 (run_no_gc p1) = true ->
+    outputs (run s2 k2 p2 (mgc (clean live (run_with_gc s1 p1)))) = outputs (run_no_gc (p1 ++ p2)).
+Proof. exact AV.GcSched.Junk.fint_free_junk_safe. Qed.
+Print Assumptions fint_free_junk_safe.
+
+(* ... and the deadness hypothesis is necessary: clearing a slot that is still read changes the output *)
+Theorem C09_junk_clearing_needs_deadness :
+  safe_from 1 [] jk_p2_bad (run_no_gc jk_p1) = false /\
+  outputs (run never 0 jk_p2_bad (mgc (clean 1 (run_no_gc jk_p1)))) <> outputs (run_no_gc (jk_p1 ++ jk_p2_bad)).
+Proof. exact junk_unsafe_example. Qed.
+Print Assumptions C09_junk_clearing_needs_deadness.
+
 (* Non-vacuity: a program that stores a block inside another, drops roots, reads back through an
    interior pointer; collecting at every allocation frees a block (3 blocks left instead of 4) and
    prints the same. *)
@@ -104,4 +121,11 @@ Example ex_C09_nonvacuous :
   outputs (run_no_gc ex_prog) = [5; 0; 1; 5] /\
   map fst (m_heap (run_with_gc always ex_prog)) = [3; 1; 0] /\
   map fst (m_heap (run_no_gc ex_prog)) = [3; 2; 1; 0].
+Proof. repeat split; vm_compute; reflexivity. Qed.
+
+Example ex_C09_junk_nonvacuous :
+  safe_from 1 [] jk_p2 (run_no_gc jk_p1) = true /\
+  outputs (run always 0 jk_p2 (mgc (clean 1 (run_with_gc always jk_p1)))) = [7; 9; 1] /\
+  length (m_heap (mgc (clean 1 (run_with_gc always jk_p1)))) = 2%nat /\
+  length (m_heap (run_no_gc jk_p1)) = 3%nat.
 Proof. repeat split; vm_compute; reflexivity. Qed.
